@@ -59,7 +59,10 @@ def replay_opt_files(exe, recs, optstr, fields, verdict, tag, pid="C15"):
 
 
 # ---------------- option strings ----------------
-BADNAMES = {1: "FOO=1", 2: "JOIN_SAME_ENTRY=1", 3: "python_style=1"}
+# unknown / misspelt items (Options.tla: name "BAD", arg = family): each family has several spellings, taken in turn - also names
+# that merely START with a documented name, or carry blanks around it
+BADNAMES = {1: ["FOO=1", "PYTHON_STYLES=1", "X", "ROOT_PREFIXES=/x"], 2: ["JOIN_SAME_ENTRY=1", "JOIN_SAME_ENTRIES_OFF=1", "JOIN_SAME_ENTRIES =1", "JOIN_SAME_ENTRIESX=0"],
+            3: ["python_style=1", "PYTHON_STYLE_STRICT=0", " PYTHON_STYLE=1", "PYTHON_STYLE2=1"]}
 POSTFIX = {0: ".conf.d", 1: ".d", 2: "/x.d"}
 PROJECT = "verifprj7"
 
@@ -76,7 +79,7 @@ def item_text(it, R):
         return "CONFIG_DIRS=" + ":".join(POSTFIX[i] for i in a)
     if n == "ROOT":
         return "ROOT_PREFIX=%s/r%d" % (R, a)
-    return BADNAMES[a]
+    return BADNAMES[a][sum(map(ord, R)) % len(BADNAMES[a])]
 
 
 MAIN = "J=1\nJ=2\nP=0\n x=1\n"
@@ -119,7 +122,7 @@ def check_option_strings(exe, tier, seed, verdict):
         names = [it["name"] for it in x["items"]]
         rep = "+".join(sorted(set(n for n in names if names.count(n) > 1))) or "norepeat"
         fp = "C15:options:%s" % ("unknown" if "BAD" in names else rep)
-        optstr = ";".join(item_text(it, "<R>") for it in x["items"])
+        optstr = ";".join(item_text(it, ROOT + "/p%d" % (i % 16)) for it in x["items"]).replace(ROOT + "/p%d" % (i % 16), "<R>")
         case = {"kind": "options", "items": x["items"], "string": optstr, "exp": {"rc": x["rc"], "probe": x["probe"]}}
         if len(x["items"]) >= 2 or ("BAD" in names and names[0] != "BAD"):
             nn += 1
